@@ -421,6 +421,61 @@ func Run(r *mc.Run) {
 			})
 	}
 
+	// ---- scenario 1c: PATHNAMES that lead to another, genuinely signed package (one worker: one mode changes the working
+	// directory). The bytes that are loaded are tampered / differently signed / unsigned; verification must be about them.
+	{
+		var pins []In
+		for _, b := range bases[:2] {
+			smG, siG := e.sigMember("origin", "K1", b.signed())
+			goodDeb := gen.BuildAr(append(append([]gen.ArMember(nil), b.mem...), smG))
+			evilCtl, err1 := e.c.Compress(b.model.ControlComp, gen.DebModel{Fields: []gen.DebField{{Key: "Package", Value: "evil"}, {Key: "Version", Value: "9"}, {Key: "Architecture", Value: "all"}}}.ControlTar())
+			evilDat, err2 := e.c.Compress(b.model.DataComp, gen.BuildTar([]gen.TarEntry{{Name: "./etc/cron.d/evil", Body: []byte("* * * * * root true\n")}}))
+			if err1 != nil || err2 != nil {
+				r.HarnessError("path scenario content: %v %v", err1, err2)
+				break
+			}
+			repl := func(i int, d []byte) []gen.ArMember {
+				ms := append([]gen.ArMember(nil), b.mem...)
+				ms[i].Data = d
+				return ms
+			}
+			k2members := repl(1, evilCtl)
+			var k2signed []byte
+			for _, m := range k2members {
+				k2signed = append(k2signed, m.Data...)
+			}
+			smK2, siK2 := e.sigMember("origin", "K2", k2signed)
+			type tv struct {
+				name string
+				ms   []gen.ArMember
+				sigs []SigInfo
+			}
+			tvs := []tv{
+				{"attacker's control, the good signature member copied", append(repl(1, evilCtl), smG), []SigInfo{siG}},
+				{"attacker's data, the good signature member copied", append(repl(2, evilDat), smG), []SigInfo{siG}},
+				{"debian-binary with a further line, the good signature member copied", append(repl(0, []byte("2.0\nevil\n")), smG), []SigInfo{siG}},
+				{"attacker's control, genuinely signed by K2 (keyring holds K1 only)", append(k2members, smK2), []SigInfo{siK2}},
+				{"attacker's control, no signature member at all", repl(1, evilCtl), nil},
+			}
+			for _, mode := range []string{"load-under-good-abs-path", "load-under-good-rel-path", "loadfile-then-replaced"} {
+				for _, t := range tvs {
+					in := e.mk(b, "path", mode+": "+t.name, "the loaded bytes: "+t.name+"; the pathname leads to the genuine package signed by K1", t.ms, t.sigs, "origin", []string{"K1"}, false)
+					in.PathMode, in.Good = mode, goodDeb
+					if len(t.sigs) == 1 && t.sigs[0].SignerName == "K2" {
+						// what K2 signed is the attacker's control: that is this input's signed content
+						in.Model.Fields = []gen.DebField{{Key: "Package", Value: "evil"}, {Key: "Version", Value: "9"}, {Key: "Architecture", Value: "all"}}
+						in.Exp = c14.Expect{Package: "evil", Upstream: "9", Arch: "all"}
+					}
+					pins = append(pins, in)
+				}
+			}
+		}
+		pins = e.widen(pins, 1, [][]string{{"K1", "K2"}, {NilRing}})
+		e.r.Scenario("pathname-confusion", map[string]interface{}{"bases": names(bases[:2]), "modes": []string{"load-under-good-abs-path", "load-under-good-rel-path (chdir)", "loadfile-then-replaced (atomic rename before CheckDebsig)"},
+			"loaded_bytes": []string{"attacker's control + copied signature", "attacker's data + copied signature", "debian-binary extended + copied signature", "signed by K2", "unsigned"},
+			"keyrings":     "[K1], [K1 K2], nil", "workers": 1, "inputs": len(pins)}, 1, func(_ int, st *mc.Stats) bool { return runIns(e.r, "pathname-confusion", pins, st) })
+	}
+
 	// ---- scenario 2: every byte of the three signed members and of the signature member, 2 (thorough 3) other values;
 	// ---- scenario 2b: length-changing faults of the same four members: a byte inserted at every position (2 values),
 	// the byte at every position deleted, truncation at every position, and a list of appended suffixes.
@@ -756,6 +811,21 @@ func Run(r *mc.Run) {
 				b    []byte
 			}{"unread rest of control‖data", cat(rest, dat)})
 		}
+		// members stored in another order, with K1's valid signature over the concatenation in ARCHIVE order
+		for _, perm := range [][]int{{0, 2, 1}, {1, 0, 2}, {1, 2, 0}, {2, 0, 1}, {2, 1, 0}} {
+			var ms []gen.ArMember
+			var cov []byte
+			var ns []string
+			for _, i := range perm {
+				ms = append(ms, b.mem[i])
+				cov = append(cov, b.mem[i].Data...)
+				ns = append(ns, b.mem[i].Name)
+			}
+			sm, si := e.sigMember("origin", "K1", cov)
+			ins = append(ins, e.mk(b, "coverage", fmt.Sprintf("members stored as %v, signature over that archive order", ns),
+				fmt.Sprintf("members stored in the order %v; _gpgorigin is K1's valid signature over their concatenation in that order", ns),
+				append(ms, sm), []SigInfo{si}, "origin", []string{"K1"}, false))
+		}
 		for _, a := range alts {
 			sm, si := e.sigMember("origin", "K1", a.b)
 			ins = append(ins, e.mk(b, "coverage", "signature over "+a.name, "_gpgorigin is K1's valid signature over "+a.name,
@@ -763,7 +833,7 @@ func Run(r *mc.Run) {
 		}
 	}
 	ins = e.widen(ins, 1, otherRings)
-	e.scenario("signed-byte-string", map[string]interface{}{"keyrings": fmt.Sprintf("[K1] and %v", otherRings), "bases": names(bases), "alternatives": "15 wrong concatenations (subsets, permutations, extensions, truncations of debian-binary‖control‖data) + 3 unread-remainder variants on the stored base"}, ins, 4)
+	e.scenario("signed-byte-string", map[string]interface{}{"keyrings": fmt.Sprintf("[K1] and %v", otherRings), "bases": names(bases), "alternatives": "5 member reorderings signed in archive order + 15 wrong concatenations (subsets, permutations, extensions, truncations of debian-binary‖control‖data) + 3 unread-remainder variants on the stored base"}, ins, 4)
 }
 
 func names(bs []base) []string {
